@@ -546,6 +546,20 @@ func genParse(r *rng, tier string) interface{} {
 		given := pick(r, [][]string{{"--name", "x"}, {"--id", "y"}, {"--all"}, {}})
 		return parseIn{Tree: t, Words: append(append(path, given...), pick(r, []string{"-", "--", "--a"}))}
 	}
+	if r.chance(6) && len(t.Cmds) > 1 {
+		// a word the parent's parser rejects (unknown flag, bad value), then a sub-command - also one that parses
+		// no flags itself: the error concerns the parent and must be shown
+		k := 1 + r.intn(len(t.Cmds)-1)
+		if r.chance(60) {
+			t.Cmds[k].NoFlagParse = true
+		}
+		path := []string{}
+		for p := t.Cmds[k].Parent; p > 0; p = t.Cmds[p].Parent {
+			path = append([]string{t.Cmds[p].Name}, path...)
+		}
+		bad := pick(r, [][]string{{"--nosuchflag"}, {"-Z"}, {"--nosuchflag=x"}, {"---"}})
+		return parseIn{Tree: t, Words: append(append(append(path, bad...), t.Cmds[k].Name), pick(r, []string{"", "x", "-"}))}
+	}
 	if r.chance(8) && len(t.Cmds) > 1 {
 		// visibility probe: hidden and deprecated sub-commands / flags, with and without CARAPACE_HIDDEN,
 		// completing sub-command names (empty word) and flag names (`--`) of the parent
